@@ -2,6 +2,8 @@
 package h10
 
 import (
+	"time"
+
 	"go.nanomsg.org/mangos/v3"
 	"go.nanomsg.org/mangos/v3/internal/core"
 	"go.nanomsg.org/mangos/v3/zzverif/verif"
@@ -51,13 +53,58 @@ func VH10a_close() {
 		tps = append(tps, p)
 	}
 	ctx, cerr := sock.OpenContext()
+	// what is in progress when Close comes: nothing / deadlines armed (solver variables) / a request, survey or
+	// pending reply outstanding (retry and survey timers armed) / a dialer waiting to redial an absent peer
+	prep := verif.Choice("prep", 4)
+	switch prep {
+	case 1:
+		d1 := verif.Duration("recv-deadline")
+		d2 := verif.Duration("send-deadline")
+		verif.Assume(verif.And(verif.And(d1 >= 1, d1 <= time.Hour), verif.And(d2 >= 1, d2 <= time.Hour)))
+		sock.SetOption(mangos.OptionRecvDeadline, d1)
+		sock.SetOption(mangos.OptionSendDeadline, d2)
+		if cerr == nil {
+			ctx.SetOption(mangos.OptionRecvDeadline, d1)
+			ctx.SetOption(mangos.OptionSendDeadline, d2)
+		}
+	case 2:
+		if len(tps) == 0 {
+			verif.Assume(false)
+		}
+		switch proto {
+		case "req", "surveyor":
+			tps[0].SendMode = vt.SendOK
+			verif.Assert(sock.Send([]byte{'q'}) == nil, lab+"/prep-request")
+			if cerr == nil {
+				verif.Assert(ctx.Send([]byte{'c'}) == nil, lab+"/prep-context-request")
+			}
+			verif.Quiesce()
+			tps[0].SendMode = vt.SendBlock
+		case "rep", "respondent", "xrep", "xrespondent":
+			tps[0].Deliver([]byte{0x80, 0, 0, 1, 'q'})
+			verif.Quiesce()
+			_, e := sock.RecvMsg()
+			verif.Assert(e == nil, lab+"/prep-request-received")
+		default:
+			// a message waiting in the receive queue
+			tps[0].Deliver([]byte{0, 0, 0, 0, 'w'})
+			verif.Quiesce()
+		}
+		verif.Reach("prep-outstanding")
+	case 3:
+		verif.Assert(sock.SetOption(mangos.OptionDialAsynch, true) == nil, lab+"/asynch")
+		verif.Assert(sock.Dial("vt://nobody-there") == nil, lab+"/asynch-dial")
+		verif.Quiesce()
+		verif.Assert(verif.PendingTimers() >= 1, lab+"/no-redial-pending-while-open")
+		verif.Reach("prep-redial")
+	}
 	var calls []*call
 	park := func(name string, f func() (*mangos.Message, error)) {
 		c := &call{name: name}
 		c.g = verif.Go(name, func() { c.msg, c.err = f() })
 		calls = append(calls, c)
 	}
-	what := verif.Choice("parked", 4)
+	what := verif.Choice("parked", 5)
 	if what == 0 || what == 2 {
 		park("recv", func() (*mangos.Message, error) { return sock.RecvMsg() })
 	}
@@ -68,6 +115,14 @@ func VH10a_close() {
 	}
 	if what == 3 && cerr == nil {
 		park("ctx-recv", func() (*mangos.Message, error) { return ctx.RecvMsg() })
+	}
+	if what == 4 && cerr == nil {
+		// both API levels at once, and senders on the context
+		park("recv", func() (*mangos.Message, error) { return sock.RecvMsg() })
+		park("ctx-recv", func() (*mangos.Message, error) { return ctx.RecvMsg() })
+		for i := 0; i < 2; i++ {
+			park("ctx-send", func() (*mangos.Message, error) { return nil, ctx.SendMsg(newMsg(proto)) })
+		}
 	}
 	verif.Quiesce()
 	// Close
@@ -88,6 +143,10 @@ func VH10a_close() {
 			ok := closedErr(c.err) || c.err == mangos.ErrProtoState || c.err == mangos.ErrNoPeers || c.err == mangos.ErrCanceled
 			verif.Assert(ok, lab+"/"+c.name+"-unexpected-error-after-close")
 		}
+	}
+	dials := 0
+	for _, d := range vt.T.Dialers {
+		dials += len(d.Dials)
 	}
 	verif.Reach("closed")
 	// second round: every call fails promptly
@@ -120,6 +179,11 @@ func VH10a_close() {
 	}
 	verif.Quiesce()
 	// census
+	after := 0
+	for _, d := range vt.T.Dialers {
+		after += len(d.Dials)
+	}
+	verif.Assert(after == dials, lab+"/connection-attempt-started-after-close")
 	verif.Assert(verif.LiveGoroutines() == 0, lab+"/goroutines-left-after-close")
 	verif.Assert(verif.PendingTimers() == 0, lab+"/timers-left-after-close")
 	for _, p := range tps {
@@ -129,4 +193,169 @@ func VH10a_close() {
 	verif.Assert(core.ZZIDsInUse() == 0, lab+"/pipe-ids-left-after-close")
 	verif.Assert(core.ZZSocketPipes(sock) == 0, lab+"/socket-still-tracks-pipes")
 	verif.Reach("census")
+}
+
+// VH10b_scoped: closing a context, a dialer, a listener or a pipe affects only
+// that object: calls parked on it return a closed error, calls parked on the
+// socket and on a sibling context stay parked, the socket's other endpoints
+// and connections keep working (a message still flows), and closing the same
+// object twice does not block or disturb anything.
+func VH10b_scoped() {
+	pi := verif.Param("proto", 0)
+	proto := vp.Names[pi]
+	lab := "C10/scoped/" + proto
+	sock := vp.New(proto)
+	vt.Install()
+	var pipes []mangos.Pipe
+	detached := 0
+	sock.SetPipeEventHook(func(ev mangos.PipeEvent, p mangos.Pipe) {
+		switch ev {
+		case mangos.PipeEventAttached:
+			pipes = append(pipes, p)
+		case mangos.PipeEventDetached:
+			detached++
+		}
+	})
+	l1, e1 := sock.NewListener("vt://la", nil)
+	l2, e2 := sock.NewListener("vt://lb", nil)
+	verif.Assert(e1 == nil && e2 == nil && l1.Listen() == nil && l2.Listen() == nil, lab+"/listen")
+	d1, e3 := sock.NewDialer("vt://peer-x", nil)
+	verif.Assert(e3 == nil && d1.Dial() == nil, lab+"/dial")
+	verif.Quiesce()
+	pa := vt.T.Listeners["la"].Connect("pa")
+	verif.Quiesce()
+	pb := vt.T.Listeners["lb"].Connect("pb")
+	verif.Quiesce()
+	if len(pipes) != 3 && !(len(pipes) == 1 && (proto == "pair" || proto == "xpair" || proto == "pair1" || proto == "xpair1")) {
+		verif.Fail(lab + "/connections-not-attached")
+		return
+	}
+	single := len(pipes) == 1
+	c1, cerr := sock.OpenContext()
+	var c2 mangos.Context
+	if cerr == nil {
+		c2, _ = sock.OpenContext()
+	}
+	type parked struct {
+		name string
+		g    *verif.G
+		err  error
+	}
+	var ps []*parked
+	park := func(name string, f func() error) *parked {
+		k := &parked{name: name}
+		k.g = verif.Go(name, func() { k.err = f() })
+		ps = append(ps, k)
+		return k
+	}
+	sockRecv := park("sock-recv", func() error { _, e := sock.RecvMsg(); return e })
+	var c1Recv, c2Recv *parked
+	if cerr == nil {
+		c1Recv = park("ctx1-recv", func() error { _, e := c1.RecvMsg(); return e })
+		c2Recv = park("ctx2-recv", func() error { _, e := c2.RecvMsg(); return e })
+	}
+	verif.Quiesce()
+	stillParked := func(k *parked, why string) {
+		if k != nil {
+			// a call that had already failed before (ErrProtoOp / ErrProtoState) is not "parked"
+			if k.g.Done() && (k.err == mangos.ErrProtoOp || k.err == mangos.ErrProtoState) {
+				return
+			}
+			verif.Assert(!k.g.Done(), lab+"/"+k.name+"-ended-by-"+why)
+		}
+	}
+	what := verif.Choice("close", 4)
+	switch what {
+	case 0: // a context
+		if cerr != nil {
+			verif.Assume(false)
+		}
+		verif.Assert(c1.Close() == nil, lab+"/context-close")
+		verif.Quiesce()
+		verif.Assert(c1Recv.g.Done(), lab+"/recv-on-closed-context-still-blocked")
+		if c1Recv.g.Done() {
+			verif.Assert(closedErr(c1Recv.err) || c1Recv.err == mangos.ErrProtoState, lab+"/recv-on-closed-context-error-kind")
+		}
+		stillParked(c2Recv, "closing-another-context")
+		stillParked(sockRecv, "closing-a-context")
+		g := verif.Go("again", func() { c1.Close(); c1.RecvMsg(); c1.SendMsg(newMsg(proto)) })
+		verif.Quiesce()
+		verif.Assert(g.Done(), lab+"/calls-on-a-closed-context-block")
+		verif.Reach("context-closed")
+	case 1: // a dialer
+		verif.Assert(d1.Close() == nil, lab+"/dialer-close")
+		verif.Quiesce()
+		for i := 0; i < 3; i++ {
+			verif.FireTimer()
+		}
+		stillParked(sockRecv, "closing-a-dialer")
+		stillParked(c2Recv, "closing-a-dialer")
+		verif.Assert(!pa.Closed || single, lab+"/listener-connection-closed-by-dialer-close")
+		verif.Assert(len(vt.T.Listeners) == 2, lab+"/listener-stopped-by-dialer-close")
+		g := verif.Go("again", func() { d1.Close(); d1.GetOption(mangos.OptionReconnectTime) })
+		verif.Quiesce()
+		verif.Assert(g.Done(), lab+"/calls-on-a-closed-dialer-block")
+		verif.Reach("dialer-closed")
+	case 2: // a listener
+		verif.Assert(l1.Close() == nil, lab+"/listener-close")
+		verif.Quiesce()
+		stillParked(sockRecv, "closing-a-listener")
+		stillParked(c2Recv, "closing-a-listener")
+		_, la := vt.T.Listeners["la"]
+		_, lb := vt.T.Listeners["lb"]
+		verif.Assert(!la, lab+"/closed-listener-still-listening")
+		verif.Assert(lb, lab+"/other-listener-stopped-by-listener-close")
+		if !single {
+			verif.Assert(!pb.Closed, lab+"/other-listeners-connection-closed")
+		}
+		if lb && !single {
+			pc := vt.T.Listeners["lb"].Connect("pc")
+			verif.Quiesce()
+			verif.Assert(len(pipes) == 4 && !pc.Closed, lab+"/other-listener-no-longer-accepts")
+		}
+		g := verif.Go("again", func() { l1.Close(); l1.GetOption(mangos.OptionMaxRecvSize) })
+		verif.Quiesce()
+		verif.Assert(g.Done(), lab+"/calls-on-a-closed-listener-block")
+		verif.Reach("listener-closed")
+	case 3: // a pipe
+		victim := pipes[0]
+		closedConns := func() int {
+			n := 0
+			for _, tp := range []*vt.Pipe{pa, pb} {
+				if tp.Closed {
+					n++
+				}
+			}
+			for _, tp := range vt.T.Dialers[0].Pipes {
+				if tp.Closed {
+					n++
+				}
+			}
+			return n
+		}
+		n0 := closedConns() // PAIR has refused (closed) the connections beyond its single peer already
+		verif.Assert(victim.Close() == nil, lab+"/pipe-close")
+		verif.Quiesce()
+		verif.Assert(detached == 1, lab+"/detached-events-after-closing-one-pipe")
+		stillParked(sockRecv, "closing-a-pipe")
+		stillParked(c2Recv, "closing-a-pipe")
+		verif.Assert(closedConns() == n0+1, lab+"/closing-one-pipe-closed-another-connection")
+		g := verif.Go("again", func() { victim.Close(); victim.GetOption(mangos.OptionMaxRecvSize) })
+		verif.Quiesce()
+		verif.Assert(g.Done(), lab+"/calls-on-a-closed-pipe-block")
+		verif.Reach("pipe-closed")
+	}
+	// the socket itself still closes cleanly
+	cg := verif.Go("close", func() { sock.Close() })
+	verif.Quiesce()
+	verif.Assert(cg.Done(), lab+"/close-does-not-return")
+	for i := 0; i < 4; i++ {
+		verif.FireTimer()
+	}
+	verif.Quiesce()
+	for _, k := range ps {
+		verif.Assert(k.g.Done(), lab+"/"+k.name+"-still-blocked-after-close")
+	}
+	verif.Assert(verif.LiveGoroutines() == 0, lab+"/goroutines-left-after-close")
+	verif.Assert(core.ZZIDsInUse() == 0, lab+"/pipe-ids-left-after-close")
 }
